@@ -218,11 +218,11 @@ theorem AttrPart.tlvs_eq {tb : Bool} {ab : Bytes} {fin : List Attr} (P : AttrPar
   · exact P.hraw r hr
   · exact hex r hr
 
-theorem attrStep_nh (tb : Bool) (st : ASt) (a : Bytes) (h : st.seen.contains 3 = false) :
+theorem attrStep_nh (tb : Bool) (st : ASt) (a : Bytes) (h : st.seen.contains 3 = false) (ha : a.length = 4) :
     attrStep tb st (nhRaw a) =
       some { st with seen := 3 :: st.seen, nexthop := nhFromBytes a } := by
   have hcf : canonicalFlags 3 = some 64 := by decide
-  have hdd : decodeAttrData 3 a tb = some (.bin a) := by simp [decodeAttrData]
+  have hdd : decodeAttrData 3 a tb = some (.bin a) := by simp [decodeAttrData, ha]
   unfold attrStep
   simp only [nhRaw, h, Bool.false_eq_true, if_false, hcf, hdd]
   simp only [show ¬ (64 / 64 % 4 ≠ 64 / 64 % 4) by decide, if_false, show ¬ (3 = 14) by decide,
@@ -262,7 +262,7 @@ theorem parseUpdate_reach_legacy (od : OpaqueDec) (peer : Codec) (ab : Bytes) (f
   simp only [htl]
   rw [P.hloop [nhRaw a]]
   simp only [attrLoop]
-  rw [attrStep_nh _ _ _ P.h3]
+  rw [attrStep_nh _ _ _ P.h3 ha]
   have hs1 : (3 :: P.seen).contains 1 = true := by
     rw [List.contains_cons, P.h1]; simp
   have hs2 : (3 :: P.seen).contains 2 = true := by
